@@ -432,6 +432,17 @@ func (r *areq) reqTerm() (string, string, string) {
 }
 
 var nEmitSign int
+var warmSignerV signature.Signer
+
+func warmSigner() signature.Signer {
+	if warmSignerV == nil {
+		ch := basePlan(3, "cs", "ec384").build().xs
+		if s, err := signature.NewLocalSigner(ch, Key("ec384")); err == nil {
+			warmSignerV = s
+		}
+	}
+	return warmSignerV
+}
 
 type ctxKey struct{}
 
@@ -458,6 +469,16 @@ func emitSign(w *CaseWriter, r *areq) {
 			req = req.WithContext(context.WithValue(context.Background(), ctxKey{}, nEmitSign))
 		}
 		noteCurrentCase(map[string]any{"labels": r.Labels, "media_type": mt})
+		if nEmitSign%3 == 0 {
+			// the object has a past: it was signed, verified and read with another signer (another chain and key type) before
+			if ws := warmSigner(); ws != nil {
+				wr := goodReq(8)
+				wr.Signer = ws
+				env.Sign(wr)
+				env.Verify()
+				env.Content()
+			}
+		}
 		b, err := env.Sign(req)
 		switch {
 		case err != nil && b != nil:
